@@ -262,6 +262,9 @@ func checkC01(P *Prog, r *Result) {
 		}
 	}
 	r.floor("C01/own-context-clean", 10)
+	// field-binding: each field's schema is applied to the destination field of that name (C03's rule): a
+	// constraint checked against another field's value lets an invalid field pass
+	shareRule(P, r, checkC03, "C03/struct-writes-by-field", nil, "C01/field-binding", 2)
 	r.Extra["schema_ctx_constructors"] = len(ca.ctors)
 	if len(ca.ctors) < 2 {
 		r.broken("vacuous: %d SchemaCtx constructors recognised (floor 2)", len(ca.ctors))
